@@ -532,8 +532,14 @@ impl<'a> Explorer<'a> {
                 }
                 return vec![n];
             }
-            // fall through: execute with the updated flag
-            return self.step_op(&n, t, def);
+            // fall through: execute with the updated flag. If the first operation of this poll blocks synchronously
+            // (a std-style lock, a blocking receive, ...) the task still has entered the poll: an abort issued from
+            // now on is not observed until the poll returns
+            let succ = self.step_op(&n, t, def);
+            if succ.is_empty() {
+                return vec![n];
+            }
+            return succ;
         }
         if ts.cleanup > 0 {
             return self.step_cleanup(s, t);
